@@ -211,8 +211,8 @@ func c14Ctor(p *an.Prog, r *an.Report, T *types.Named, c, v *ssa.Function) {
 				continue
 			}
 			seenOut[sig] = true
-			if len(seenOut) > 48 {
-				undec = "more than 48 distinct constructor results"
+			if len(seenOut) > capFor(48, 400) {
+				undec = fmt.Sprintf("more than %d distinct constructor results", capFor(48, 400))
 				break
 			}
 			var recv an.AV
